@@ -9,6 +9,7 @@ import (
 	"os/exec"
 	"path/filepath"
 	"runtime"
+	"runtime/pprof"
 	"sort"
 	"strconv"
 	"strings"
@@ -100,6 +101,12 @@ func workerMain(args []string) int {
 	det := len(args) > 7 && args[7] == "det"
 	announce := os.Getenv("IKESIM_C18_MODE") == "race"
 	installSimRand()
+	if pf := os.Getenv("IKESIM_PROF"); pf != "" {
+		if f, err := os.Create(pf); err == nil {
+			pprof.StartCPUProfile(f)
+			defer pprof.StopCPUProfile()
+		}
+	}
 	out := &WorkerResult{Stats: map[string]int64{}, DetHash: map[int]uint64{}}
 	seen := map[uint64]bool{}
 	violSeen := map[string]bool{}
